@@ -346,8 +346,9 @@ class Observer:
 
         ebuild_src.package_factory._get_metadata = recording_get
 
-    def read(self, w, cpv, cached=True, repo=None):
-        """-> (regenerated?, metadata or None, error or None); repo: reuse one repository object for several reads"""
+    def read(self, w, cpv, cached=True, repo=None, hold=None):
+        """-> (regenerated?, metadata or None, error or None); repo: reuse one repository object for several reads;
+        hold: a list that keeps the package objects (and their metadata) alive, as a caller iterating a repository does"""
         from pkgcore.ebuild.cpv import VersionedCPV
         c = VersionedCPV(cpv)
         if repo is None:
@@ -357,7 +358,9 @@ class Observer:
         err = None
         try:
             pkg = repo.package_class(c.category, c.package, c.fullver)
-            pkg.data
+            data = pkg.data
+            if hold is not None:
+                hold.append((pkg, data, getattr(pkg, "inherited", None)))
         except Exception as e:
             err = "%s: %s" % (type(e).__name__, str(e)[:300])
         return self.calls > before, plain(self.meta.get(cpv)), err
@@ -386,12 +389,13 @@ def one_history(ctx, obs, tag, script=None, kind=None):
             rng.shuffle(todo)
             shared = w.open_repo(cached=True)
             ctx.count("multi_package_reads_on_one_repo_object")
+            held = [] if rng.random() < 0.5 else None
         else:
-            todo, shared = [rng.choice(cpvs)], None
+            todo, shared, held = [rng.choice(cpvs)], None, None
         for cpv in todo:
           valid, reason = w.entry_valid(cpv)
           ebd.take_stalls()
-          regen, meta, err = obs.read(w, cpv, repo=shared)
+          regen, meta, err = obs.read(w, cpv, repo=shared, hold=held)
           stalls = ebd.take_stalls()
           _judge_read(ctx, w, obs, cpv, valid, reason, regen, meta, err, stalls, log, pending, step)
     # directed epilogue: partially refreshed cache.  Two packages record the same eclass; the eclass changes;
@@ -427,10 +431,11 @@ def one_history(ctx, obs, tag, script=None, kind=None):
             _judge_read(ctx, w, obs, cpv, valid, reason, regen, meta, err, ebd.take_stalls(), log, pending, 99)
         shared = w.open_repo(cached=True)
         ctx.count("partial_refresh_epilogues")
+        held = []      # the caller keeps every package it has read (a repository scan collecting results)
         for cpv in order:
             valid, reason = w.entry_valid(cpv)
             ebd.take_stalls()
-            regen, meta, err = obs.read(w, cpv, repo=shared)
+            regen, meta, err = obs.read(w, cpv, repo=shared, hold=held)
             _judge_read(ctx, w, obs, cpv, valid, reason, regen, meta, err, ebd.take_stalls(), log, pending, 99)
     # directed epilogue: sources restored with an EARLIER timestamp (rsync/tar/git checkout preserve old mtimes).  Refresh one
     # package's entry, then change its ebuild (and, when it records one, an eclass) while moving the mtime backwards.
